@@ -7,7 +7,15 @@
 //   conc race vector <iters>    A: SendData(0, v)            B: MMIO writes 0x214+4*14 / 0x212+4*14 (ICU vector of IRQ 0xE)
 //   conc race recv <iters>      A: SendData(0, v)            B: MMIO read 0x0C2 (RecvData) + 0x0D6 (status)   [control]
 // Response: "done <iters>" (TSan reports go to stderr).
+//   conc lostwake <iters> <ms>  search for a lost wake-up on the real code (plain build).  Per round, from a quiescent
+//                               state (mailbox 0 empty, its interrupt disabled, nothing requested): A: SendData(0, v);
+//                               B: MMIO write 0x0D4 := 0 (enable), then one poll of the ready bit (MMIO 0x0D6).
+//                               Afterwards "B's poll saw the word, or IRQ 0xE is requested" must hold - every
+//                               interleaving of an atomic Send satisfies it.  Used by checks/c19.py to look for a failing
+//                               schedule when `oneCriticalSection` fails for the send path; it decides nothing when it
+//                               finds none.   Response: "lost <round> <word>" | "none <rounds>".
 #include <atomic>
+#include <chrono>
 #include <memory>
 #include <thread>
 #include "h.hpp"
@@ -47,9 +55,62 @@ std::string Race(const std::string& kind, uint64_t iters) {
     return o.s;
 }
 
+std::string LostWake(uint64_t iters, uint64_t ms) {
+    auto t = std::make_unique<Teakra::Teakra>(Teakra::UserConfig{});
+    std::atomic<uint64_t> go{0};
+    std::atomic<int> done{0};
+    std::atomic<bool> quit{false};
+    bool saw_ready = false;
+    auto spin = [](unsigned n) { for (volatile unsigned i = 0; i < n; ++i) {} };
+    std::thread a([&] {
+        for (uint64_t round = 0;;) {
+            while (go.load(std::memory_order_acquire) == round) if (quit.load()) return;
+            ++round;
+            spin((unsigned)(round * 7) % 61);
+            t->SendData(0, (uint16_t)round);
+            done.fetch_add(1, std::memory_order_release);
+        }
+    });
+    std::thread b([&] {
+        for (uint64_t round = 0;;) {
+            while (go.load(std::memory_order_acquire) == round) if (quit.load()) return;
+            ++round;
+            spin((unsigned)(round * 13) % 67);
+            t->MMIOWrite(0x0D4, 0);
+            saw_ready = (t->MMIORead(0x0D6) & 0x100) != 0;
+            done.fetch_add(1, std::memory_order_release);
+        }
+    });
+    auto t0 = std::chrono::steady_clock::now();
+    Out o;
+    uint64_t i = 0;
+    bool lost = false;
+    for (; i < iters; ++i) {
+        t->MMIOWrite(0x0D4, 0x100);
+        (void)t->MMIORead(0x0C2);
+        t->MMIOWrite(0x202, 0xFFFF);
+        done.store(0);
+        go.fetch_add(1, std::memory_order_release);
+        while (done.load(std::memory_order_acquire) != 2) {}
+        bool irq = (t->MMIORead(0x200) & (1u << 0xE)) != 0;
+        if (!saw_ready && !irq) {
+            o << "lost" << i << (uint64_t)t->MMIORead(0x0C2);
+            lost = true;
+            break;
+        }
+        if ((i & 0x3FF) == 0 && std::chrono::steady_clock::now() - t0 > std::chrono::milliseconds(ms)) break;
+    }
+    quit = true;
+    a.join();
+    b.join();
+    if (!lost) o << "none" << i;
+    return o.s;
+}
+
 Registrar reg_conc("conc", [](const Args& a) -> std::string {
     if (a.size() == 3 && a[0] == "race" && (a[1] == "disable" || a[1] == "vector" || a[1] == "recv"))
         return Race(a[1], H(a[2]));
+    if (a.size() == 3 && a[0] == "lostwake") return LostWake(H(a[1]), H(a[2]));
     throw std::string("bad-op");
 });
 
